@@ -34,6 +34,9 @@ type Expect struct {
 	Codec    sch.CompressionCodec
 	PageSize int
 	Batches  []int // records per non-empty written batch
+	// ForeignOffsets: ColumnChunk.file_offset is not checked (writers disagree about it: the
+	// chunk's first page, 0, or the position after the chunk); data_page_offset still is
+	ForeignOffsets bool
 }
 
 func (l Leaf) maxLevels() (def, rep int) {
@@ -263,7 +266,7 @@ func Check(file []byte, exp Expect) (errs []string) {
 			if exp.Codec >= 0 && md.Codec != exp.Codec {
 				bad("row group %d column %s: codec %v recorded, %v configured", gi, name, md.Codec, exp.Codec)
 			}
-			if col.FileOffset != off || md.DataPageOffset != off {
+			if (col.FileOffset != off && !exp.ForeignOffsets) || md.DataPageOffset != off {
 				bad("row group %d column %s: file_offset %d / data_page_offset %d, the previous chunk ends at %d", gi, name, col.FileOffset, md.DataPageOffset, off)
 				return
 			}
